@@ -340,6 +340,13 @@ class Tracer:
             else:
                 self.assign(st.target, v, env, fr, st)
 
+        if isinstance(base, _Pair) and mode == 'keys':
+            # literal tuple / list: one pass per element
+            for item in base.items:
+                self.assign(st.target, item, env, fr, st)
+                self.block(st.body, env, fr)
+            self.block(st.orelse, env, fr)
+            return
         if isinstance(base, DictV):
             if not base.entries:
                 return
